@@ -158,7 +158,9 @@ theorem observed_update_is_unobserved_update (opts : Opts) (binder : Option Op) 
       have hany : (opts.noSets && ops.any Op.functionStyleSet) = false := by
         cases hc : (opts.noSets && ops.any Op.functionStyleSet) with
         | false => rfl
-        | true => simp [runStages, hc, bind, Except.bind] at hs
+        | true =>
+          simp only [runStages, hc, bind, Except.bind] at hs
+          cases hroot : rootObj opts binder data <;> simp [hroot] at hs
       have hany2 : (opts.noSets && (ops ++ [u]).any Op.functionStyleSet) = false := by
         rw [List.any_append]
         simp only [List.any_cons, List.any_nil, hf, Bool.or_false]
